@@ -125,6 +125,9 @@ def _payload_roles(pl) -> dict[str, str]:
 
 
 def run(prog: Program, res: Result, tier: str) -> None:
+    from .common import check_setter_once
+    check_setter_once(prog, res, [prog.fn(
+        "experimental:JSONHandler.json_deserialize")], "JSON reader")
     res.rule("J-SECTIONS", "for every class guard, the set of section keys "
              "written by as_dict equals the set read by json_deserialize")
     res.rule("J-ENUM", "every member of Change has a bond section written "
